@@ -752,6 +752,17 @@ func TestKillPrefixes(t *testing.T) {
 				}
 			}
 		}
+		// the set a glob names becomes empty, a (normal / killed / failing) run happens on the empty
+		// set, and the very same file comes back
+		if pi == 0 {
+			gprog := []KTask{{Name: "A", Globs: []string{"*.c"}}, {Name: "B", Files: []string{"f2.txt"}, Deps: []string{"A"}}}
+			ginit := map[string]string{"f1.txt": "0", "f2.txt": "0", "g1.c": "0"}
+			for _, mid := range []KStep{{Op: "run", Tasks: []string{"B"}, CutAbs: -1}, {Op: "run", Tasks: []string{"A", "B"}, Kill: "A", CutAbs: -1}, {Op: "run", Tasks: []string{"B"}, Fail: []string{"A"}, CutAbs: -1}, {Op: "run", Tasks: []string{"B"}, Force: true, CutAbs: -1}, {Op: "run", Tasks: []string{"B"}, Kill: "B", CutAbs: -1}} {
+				steps := []KStep{run("B"), {Op: "delete", File: "g1.c", CutAbs: -1}, mid, w("g1.c", "0"), run("B"), run("A", "B")}
+				s.Class("enumerated_emptied_glob_set")
+				one(KillCase{Tasks: gprog, Init: ginit, Steps: steps})
+			}
+		}
 		// every byte prefix of the cache file after the second run (length probed once: <= 200 bytes)
 		for k := 0; k < 200; k += step {
 			for ci, cont := range conts {
